@@ -34,7 +34,7 @@ func init() {
 			var oracles [2]*pegi.Oracle
 			nSys := len(gen.SysSentences(2, 1, fnF, fnG))
 			return &harness.Plan{
-				N: nSys + size(tier, 250000, 4000000),
+				N: nSys + size(tier, 250000, 8000000),
 				Setup: func(c *harness.Ctx) {
 					hooksOn()
 					src = newStrSource()
